@@ -9,3 +9,4 @@ import SsqlVerif.Props.C12
 #print axioms C12.exact_vs_rounded_literal
 #print axioms C12.guard_needed
 #print axioms C12.facts_regexes
+#print axioms C12.facts_guards
